@@ -7,6 +7,7 @@ of the property statement, written from RFC 7233's range grammar, not from the m
 import re, glob, os, shutil, tempfile, zlib, itertools
 from vlib import common as C
 
+DRIVERS = ['RangeM']   # model driver files this check runs: scopes translator failures to the tables they (and the proofs) import
 TRUSTED = ['Rust std: str::split, str::trim (Unicode White_Space), str::parse::<u64>, u64::checked_sub (modelled in Rws.RangeM)',
            'file-ext 12.1.0 read_file_partially = seek + take(end-start+1) + read_to_end (modelled as drop/take on the contents)',
            'model abstraction: the request target resolves to a regular file (URL parsing, path joining, the symlink branch and I/O-error 500s are not modelled; the harness runs the real code over a plain file and over a symlink to it)',
